@@ -16,6 +16,8 @@ pub mod c13;
 pub mod c14;
 pub mod c15;
 pub mod c16;
+pub mod c17;
+pub mod c18;
 pub mod c19;
 pub mod linerules;
 
@@ -36,5 +38,7 @@ pub const TABLE: &[(&str, fn(&mut Run))] = &[
     ("C14", c14::run),
     ("C15", c15::run),
     ("C16", c16::run),
+    ("C17", c17::run),
+    ("C18", c18::run),
     ("C19", c19::run),
 ];
